@@ -25,7 +25,9 @@ CLAIMED = {
         "L2 monitor on the real engine under gate-driven schedules. Run loop (Model/Runner.v, Proofs/RunnerSlots.v): for "
         "every schedule of worker completions, deliveries and clock advances, while the run is live the in-flight "
         "invocations (to start, started, finished-not-harvested, result tick buffered) hold pairwise distinct "
-        "(step, slot) keys, each a slot of the step's in_progress, hence at most num_workers per step; the runner model "
+        "(step, slot) keys, each a slot of the step's in_progress, hence at most num_workers per step; conversely no "
+        "slot leaks: whenever the live loop of a fresh run blocks, the in_progress slots are exactly the in-flight "
+        "invocations and each belongs to a started, unfinished worker (Proofs/RunnerSlotsExact.v); the runner model "
         "is tied to _ControlLoopRunner by the runner differential (complete tick log, stream and outcome, exact).",
         "asyncio task scheduling itself is exercised (L2 monitor, runner differential on gate-driven workflows), not "
         "modelled; the runner theorem assumes one collect_events result per buffer call and add-event-only mailboxes; "
